@@ -19,7 +19,7 @@ from fractions import Fraction
 import numpy as np
 
 import common
-from common import blit
+from common import blit, zlit
 
 TOLS = [(0.0, 0.0), (2.0 ** -3, 2.0 ** -4), (2.0 ** -10, 2.0 ** -17), (0.0, 2.0 ** -4), (2.0 ** -3, 0.0)]
 
@@ -486,6 +486,128 @@ def flag_checks(ctx, tmp, coq_rows):
     return n
 
 
+# ---------------------------------------------------------------- feed routing (_build_ort_inputs vs OrtFeed.route)
+class _Meta:
+    def __init__(self, name):
+        self.name, self.type, self.shape = name, None, None
+
+
+class _Sess:
+    def __init__(self, names):
+        self._m = [_Meta(n) for n in names]
+
+    def get_inputs(self):
+        return list(self._m)
+
+
+_FEED_NAMES = ["in_0", "in_1", "in_2", "x", "y", "deterministic", "mask", "k"]
+
+
+def _feed_spec(names, xs, params):
+    """what the property demands: the routing of theories/OrtFeed.v, written independently"""
+    slots = [n for n in names if n not in params]
+    if len(xs) < len(slots):
+        return ("few", slots[len(xs)])
+    if len(xs) > len(slots):
+        return ("many",)
+    it = iter(xs)
+    return ("ok", [(n, params[n] if n in params else next(it)) for n in names])
+
+
+def feed_tie(ctx, ui):
+    """Tie D for theories/OrtFeed.v: the real _build_ort_inputs on a stub session against [route] evaluated in Coq,
+    plus the property itself decided on the real result (a value reaching another input than the spec's, or a call that
+    goes through although the counts disagree, is a violation with the call as replay)."""
+    rng = ctx.rng
+    n_cases = 300 if ctx.tier == "quick" else 3000
+    cases = []
+    fixed = [(["a", "b", "c"], [1, 2], {"b": 9}), ([], [], {}), ([], [5], {}), (["a"], [], {}), (["a"], [], {"a": 3}),
+             (["a", "b"], [1, 2, 3], {}), (["a", "b"], [1], {"zz": 4}), (["a", "b", "c"], [1], {"a": 7, "c": 8}),
+             (["a", "b", "c"], [1, 2, 3], {"a": 7}), (["p", "q"], [], {"q": 1, "p": 2})]
+    for names, xs, params in fixed:
+        cases.append((names, xs, params))
+    while len(cases) < n_cases:
+        k = rng.choice([0, 1, 1, 2, 2, 3, 3, 4, 5, 6])
+        names = rng.sample(_FEED_NAMES, k)
+        keys = [n for n in names if rng.random() < 0.35] + [e for e in ("extra", "rng") if rng.random() < 0.15]
+        rng.shuffle(keys)
+        params = {key: 200 + j for j, key in enumerate(keys)}
+        nslots = len([n for n in names if n not in params])
+        nx = max(0, nslots + rng.choice([0, 0, 0, 0, 0, -1, -2, 1, 2]))
+        cases.append((names, [100 + i for i in range(nx)], params))
+    dist = {"ok": 0, "few": 0, "many": 0, "with_params": 0}
+    rows, diverge = [], []
+    for names, xs, params in cases:
+        spec = _feed_spec(names, xs, params)
+        dist[spec[0]] += 1
+        dist["with_params"] += bool(params)
+        try:
+            feed = ui._build_ort_inputs(_Sess(names), [np.asarray(v, dtype=np.int64) for v in xs],
+                                        {k_: np.asarray(v, dtype=np.int64) for k_, v in params.items()})
+            real = ("ok", [(k_, int(v)) for k_, v in feed.items()])
+        except ValueError as exc:
+            msg = str(exc)
+            m = re.search(r"missing value for '([^']*)'", msg)
+            real = ("few", m.group(1)) if m else (("many",) if "Too many" in msg else ("other", msg))
+        except Exception as exc:  # noqa: BLE001
+            real = ("other", f"{type(exc).__name__}: {exc}")
+        rows.append((names, xs, params, real))
+        call = {"kind": "feed", "model_inputs": names, "positional": xs, "params": params, "real": list(real), "spec": list(spec)}
+        if real[0] == "ok" and real != spec:
+            what = (f"_build_ort_inputs(model inputs {names}, positional {xs}, params {params}) feeds {real[1]}; "
+                    + ("the positional values do not fill the unbound inputs, the call must raise" if spec[0] != "ok"
+                       else f"the arguments of fn correspond to {spec[1]}: the stored model is run on other inputs than fn"))
+            ctx.violate(f"feed-misrouted:{'count' if spec[0] != 'ok' else 'order'}", what, call)
+        elif real != spec:
+            diverge.append(call)
+    # one violation per key
+    seen = set()
+    ctx.violations[:] = [v for v in ctx.violations if not (v["key"].startswith("feed-") and (v["key"] in seen or seen.add(v["key"])))]
+
+    def slit(x):
+        return '"' + x + '"'
+
+    def res_lit(r):
+        if r[0] == "ok":
+            return "inl [" + "; ".join(f"({slit(n)}, {zlit(v)})" for n, v in r[1]) + "]"
+        if r[0] == "few":
+            return f"inr (NotEnough {slit(r[1])})"
+        if r[0] == "many":
+            return "inr TooMany"
+        return 'inr (NotEnough "<other exception>")'
+
+    head = common.CASES_HEADER + ("From J2O Require Import OrtFeed.\nOpen Scope string_scope.\n"
+        "Definition feq_ (a b : list (string * Z)) : bool := (Nat.eqb (List.length a) (List.length b)) && "
+        "forallb (fun p => String.eqb (fst (fst p)) (fst (snd p)) && Z.eqb (snd (fst p)) (snd (snd p))) (combine a b).\n"
+        "Definition fcase_ := (list string * list Z * list (string * Z) * (list (string * Z) + feed_err))%type.\n"
+        "Definition fcmp_ (c : fcase_) : bool := let '(ns, xs, ps, r) := c in match route Z ns xs ps, r with\n"
+        "  | inl f, inl g => feq_ f g | inr (NotEnough a), inr (NotEnough b) => String.eqb a b\n"
+        "  | inr TooMany, inr TooMany => true | _, _ => false end.\n")
+    txt = head
+    chunks = [rows[i:i + 150] for i in range(0, len(rows), 150)]
+    for k, ch in enumerate(chunks):
+        txt += f"Definition fs{k} : list fcase_ := [\n" + ";\n".join(
+            "([" + "; ".join(slit(n) for n in names) + "], [" + "; ".join(zlit(v) for v in xs) + "], [" +
+            "; ".join(f"({slit(k_)}, {zlit(v)})" for k_, v in params.items()) + "], " + res_lit(real) + ")"
+            for names, xs, params, real in ch) + "].\n"
+        txt += f"Eval vm_compute in bad_idx_ fcmp_ 0 fs{k}.\n"
+    ok, out = common.coq_eval_file(ctx, "c18_feed_cases", txt)
+    lists = re.findall(r"=\s*(\[[^\]]*\]|nil)\s*:\s*list nat", out.replace("\n", " "))
+    if not ok or len(lists) != len(chunks):
+        ctx.oblige("tie:OrtFeed.route-vs-real-_build_ort_inputs", False, "tie", out[-1500:])
+    else:
+        bad = []
+        for k, ch in enumerate(chunks):
+            l = lists[k]
+            bad += [ch[int(t.replace("%nat", ""))] for t in ([] if l in ("nil", "[]") else l.strip("[]").split(";")) if t.strip()]
+        ctx.oblige(f"tie:OrtFeed.route-equals-real-_build_ort_inputs({len(rows)} calls)", not bad, "tie",
+                   "" if not bad else "model and implementation differ on " +
+                   "; ".join(f"inputs={n} positional={x} params={p} real={r}" for n, x, p, r in bad[:6]))
+    ctx.oblige(f"tie:_build_ort_inputs-raises-exactly-when-counts-disagree({len(rows)} calls)", not diverge, "tie",
+               "" if not diverge else json.dumps(diverge[:4]))
+    return {"calls": len(rows), "distribution": dist}
+
+
 def run(ctx):
     import jax
     import jax2onnx
@@ -512,7 +634,8 @@ def run(ctx):
         "against the property on the real code but not tied to the model",
         "the layout normalisations (NCHW back-transpose requested by outputs_as_nchw, complex re-packing of a trailing "
         "axis of size 2) are part of the statement: the theorem speaks about the ORT value after them",
-        "_build_ort_inputs / input coercion is exercised (wrong input counts, dtype coercion of the float32 feed) but not modelled",
+        "_build_ort_inputs: the routing of caller values to model inputs is modelled (theories/OrtFeed.v [route]) and tied on a stub "
+        "session with identity coercion; the per-value dtype coercion _to_numpy_input is exercised (float32 feed) but not modelled",
     ]
     common.build_props(ctx, "C18", [])
 
@@ -615,10 +738,13 @@ def run(ctx):
                    "; ".join(f"{c.kind}(rtol={c.rtol},atol={c.atol},real={v})" for c, _, _, v in bad[:8]))
         ctx.oblige("tie:temporary_x64-model-evaluated-in-coq(16 runs)", not idx(tm_list), "tie", tm_list)
 
+    feed_cov = feed_tie(ctx, ui)
+
     verdict_table = {k: sorted(set(v)) for k, v in kinds.items()}
     ctx.level = "proof"
     ctx.coverage.update({
         "tied_model": model_name,
+        "feed_routing": feed_cov,
         "evaluations": len(cases) - len(skipped) + n_flag,
         "distinct_nontrivial": len({(c.kind, c.rtol, c.atol, tuple(a.tobytes() for a in e), tuple(a.tobytes() for a in g))
                                     for c, e, g, _ in rows}),
@@ -641,6 +767,17 @@ def run(ctx):
 def replay(path):
     import jax2onnx
     r = json.load(open(path))["replay"]
+    if r.get("kind") == "feed":
+        from jax2onnx import user_interface as ui
+        spec = _feed_spec(r["model_inputs"], r["positional"], r["params"])
+        try:
+            feed = ui._build_ort_inputs(_Sess(r["model_inputs"]), [np.asarray(v, dtype=np.int64) for v in r["positional"]],
+                                        {k_: np.asarray(v, dtype=np.int64) for k_, v in r["params"].items()})
+            real = ("ok", [(k_, int(v)) for k_, v in feed.items()])
+        except Exception as exc:  # noqa: BLE001
+            real = ("raised", str(exc))
+        print("_build_ort_inputs now:", real, "| demanded:", spec)
+        return 1 if (real[0] == "ok" and real != spec) else 0
     if r.get("kind") != "false_match":
         ctx = common.Ctx("C18", "quick", 0)
         try:
